@@ -27,10 +27,13 @@ fn hexval(b: u8) -> Option<u64> {
     }
 }
 
-/// chunked-body = *chunk last-chunk CRLF (no trailer section: the client never sends `TE: trailers`).
+/// chunked-body = *chunk last-chunk trailer-section CRLF (RFC 9112 §7.1); the trailer section is
+/// `*( field-line CRLF )` and a recipient may discard it (§7.1.2) — it is not payload.
 /// A size line is `1*HEXDIG [ ";" ext ] CRLF`, at most `line_limit` bytes including its line ending;
 /// the code also accepts a bare LF and blanks around the number — the spec is deliberately permissive
 /// there (`lenient`): it is used as an upper bound for "bytes that may be handed out".
+/// Trailer lines are bounded by `trailer_limits()` (line length incl. line ending, number of lines):
+/// a longer or further line is `Malformed` (the client may refuse it; C05 wants it bounded).
 pub fn decode_chunked(body: &[u8], line_limit: usize) -> Decoded {
     let mut payload = vec![];
     let mut i = 0;
@@ -87,7 +90,34 @@ pub fn decode_chunked(body: &[u8], line_limit: usize) -> Decoded {
             payload.extend_from_slice(&body[i..i + size]);
             i += size;
         }
-        // line ending after the data (or after the last-chunk line)
+        if size == 0 {
+            // trailer section: field lines up to the empty line
+            let (tl_len, tl_count) = trailer_limits();
+            let mut lines = 0usize;
+            loop {
+                let window = &body[i..body.len().min(i + tl_len)];
+                let lf = match window.iter().position(|&b| b == b'\n') {
+                    Some(p) => p,
+                    None => {
+                        let end = if body.len() - i >= tl_len { End::Malformed } else { End::Truncated };
+                        return Decoded { payload, end };
+                    }
+                };
+                let mut line = &body[i..i + lf];
+                if line.last() == Some(&b'\r') {
+                    line = &line[..line.len() - 1];
+                }
+                i += lf + 1;
+                if line.is_empty() {
+                    return Decoded { payload, end: End::Complete(i) };
+                }
+                lines += 1;
+                if lines > tl_count {
+                    return Decoded { payload, end: End::Malformed };
+                }
+            }
+        }
+        // line ending after the data
         if i >= body.len() {
             return Decoded { payload, end: End::Truncated };
         }
@@ -104,10 +134,14 @@ pub fn decode_chunked(body: &[u8], line_limit: usize) -> Decoded {
         } else {
             return Decoded { payload, end: End::Malformed };
         }
-        if size == 0 {
-            return Decoded { payload, end: End::Complete(i) };
-        }
     }
+}
+
+/// (maximal length of a trailer line including its line ending, maximal number of trailer lines) the
+/// client is allowed to insist on; taken from the constants extracted from the source when present.
+pub fn trailer_limits() -> (usize, usize) {
+    let c = crate::consts();
+    (c.trailer_line_limit, c.max_trailer_lines)
 }
 
 pub fn decode_length(body: &[u8], n: usize) -> Decoded {
